@@ -38,6 +38,7 @@ pub struct TickCtx {
     pub synced: Cell<u64>,
     pub shared_hits: Cell<u64>,
     pub block_ticks: Cell<u64>,
+    pub iso_clock_reads: Cell<u64>,
 }
 
 thread_local! {
@@ -59,6 +60,7 @@ thread_local! {
         synced: Cell::new(0),
         shared_hits: Cell::new(0),
         block_ticks: Cell::new(0),
+        iso_clock_reads: Cell::new(0),
     } };
 }
 
@@ -342,4 +344,39 @@ pub unsafe extern "C" fn syscall(
         return -1;
     }
     ret
+}
+
+// ---------------------------------------------------------------------------
+// `clock_gettime()` — the libc function Rust's std uses for Instant::now / SystemTime::now. Outside a simulated
+// (or isolated) library call it is the real clock. Inside one, the wall and monotonic clocks read the run's
+// VIRTUAL time: a fixed base, +1 ns per read, plus the clock jumps the workload injects between calls (fault
+// kind F8). The library under test reads no clock today; a change that starts to (a cache with an expiry, a
+// time-based seed) gets a deterministic, replayable and fault-injectable clock instead of an uncontrolled one.
+#[cfg(all(target_os = "linux", target_arch = "x86_64"))]
+#[no_mangle]
+pub unsafe extern "C" fn clock_gettime(clk: libc::clockid_t, ts: *mut libc::timespec) -> libc::c_int {
+    let is_real = clk == libc::CLOCK_REALTIME || clk == libc::CLOCK_REALTIME_COARSE || clk == libc::CLOCK_TAI;
+    let is_mono = clk == libc::CLOCK_MONOTONIC || clk == libc::CLOCK_MONOTONIC_RAW || clk == libc::CLOCK_MONOTONIC_COARSE || clk == libc::CLOCK_BOOTTIME;
+    if (is_real || is_mono) && !ts.is_null() {
+        if let Some(ns) = crate::sim::virtual_clock(is_real) {
+            (*ts).tv_sec = (ns / 1_000_000_000) as libc::time_t;
+            (*ts).tv_nsec = (ns % 1_000_000_000) as libc::c_long;
+            return 0;
+        }
+    }
+    let ret: libc::c_long;
+    core::arch::asm!(
+        "syscall",
+        inlateout("rax") libc::SYS_clock_gettime => ret,
+        in("rdi") clk as libc::c_long,
+        in("rsi") ts,
+        lateout("rcx") _,
+        lateout("r11") _,
+        options(nostack)
+    );
+    if ret < 0 {
+        *libc::__errno_location() = (-ret) as i32;
+        return -1;
+    }
+    0
 }
